@@ -199,7 +199,7 @@ def reference(terms, H, edges, n_types):
     B = z3.BoolVal
     member_of = [(H['S1'], terms['S1.m']), (H['S2'], terms['S2.m']), (H['S3'], terms['S3.m']), (H['S3'], terms['S3.m2'])]
     reach = {t: z3.Or([terms[g] == t for g in ('g0', 'g1', 'g2')]) for t in range(n_types)}
-    for _ in range(6):        # longest chain: var -> S3 -> A2 -> S2 -> A1/R1 -> S1 -> A0/AA0 -> array -> S0
+    for _ in range(10):       # longest chain: var -> S3 -> A2 -> S2 -> A1/R1 -> S1 -> A0/AA0 -> array -> S0 (8 hops; 6 rounds were too few)
         new = {}
         for t in range(n_types):
             srcs = [reach[t]]
